@@ -56,6 +56,7 @@ Record xobs := {
   o_lines : lines;                  (* value lines of the message in order, values as handed to a_repr *)
   o_recorded : list (nat * val);    (* [Visitor.recomputed_values]: node index, value *)
   o_pylog : list (nat * val);       (* CPython, instrumented: node index and value in evaluation order, outer scope *)
+  o_pyinner : list (nat * val);     (* the same for the nodes inside comprehension scopes: one entry per evaluation *)
   o_pytruth : option bool;          (* truth of the condition's value in CPython; None if it raised *)
   o_text_ok : bool                  (* the condition text in the message parses to the generated expression *)
 }.
@@ -138,7 +139,7 @@ Definition all_counterexample (m : env) (e : expr) : option (list (string * val)
   | _ => None
   end.
 
-Definition line_is_true (c : xcase) (m : env) (l : log) (k : string) (v : val) : bool :=
+Definition line_is_true (c : xcase) (m : env) (l : log) (pyinner : list (nat * val)) (k : string) (v : val) : bool :=
   (* an argument of the call, under its own name *)
   existsb (fun p => String.eqb (fst p) k && val_eqb (snd p) v) (x_kwargs c) ||
   existsb (fun i =>
@@ -150,7 +151,12 @@ Definition line_is_true (c : xcase) (m : env) (l : log) (k : string) (v : val) :
         end
     | _ =>
         if is_inner c i
-        then match comp_value py_prims (node c i) m with Ok w => val_eqb w v | Err _ => false end
+        then
+          (* inside a comprehension scope: one of the values CPython computed for the node; where CPython never
+             evaluated the node, the value of the node taken on its own (the documented speculative visit, D12b) *)
+          if existsb (fun p => Nat.eqb (fst p) i) pyinner
+          then existsb (fun p => Nat.eqb (fst p) i && val_eqb (snd p) v) pyinner
+          else match comp_value py_prims (node c i) m with Ok w => val_eqb w v | Err _ => false end
         else in_log l i v
     end) (nodes_with_text c k) ||
   (* the target of an assignment expression, shown with the value assigned *)
@@ -183,7 +189,7 @@ Definition spec_C06_gen (exempt_fstring : bool) (c : xcase) (o : xobs) : bool :=
   match py_run c with
   | Err _ => true
   | Ok (_, (m, l)) =>
-      forallb (fun p => line_is_true c m l (fst p) (snd p)) (o_lines o) &&
+      forallb (fun p => line_is_true c m l (o_pyinner o) (fst p) (snd p)) (o_lines o) &&
       forallb (fun p => negb (representable (snd p)) || line_has (o_lines o) (fst p))
               (selected_kwargs (x_kwargs c) (x_cond_params c)) &&
       (negb (no_name_is_none c) ||
